@@ -9,6 +9,7 @@
 -/
 import Ctrmml.Model.MdsConv
 import Ctrmml.Spec.SeqWf
+import Ctrmml.Proofs.CodecLoops
 namespace Ctrmml.C03
 open Ctrmml Ctrmml.Mds Ctrmml.Seq Tables
 
@@ -106,5 +107,62 @@ theorem C03_finish_last (nS nM : Nat) (e e' : Enc) (h : encEv nS nM e ⟨mds_FIN
 /-! non-vacuity -/
 example : ∃ e', encOther 0 0 { out := [mds_LP, 0xa6, 0x17], breaks := [1] } mds_LPF 2 = .ok e' := ⟨_, rfl⟩
 example : ∃ e', encOther 0 0 { out := [0xa6, 0x17], segnoPos := 0 } mds_JUMP 0 = .ok e' := ⟨_, rfl⟩
+
+end Ctrmml.C03
+
+/-! ## Corollaries of the codec round trip (second layer; definitions as in Properties/C02.lean) -/
+namespace Ctrmml.C03
+open Ctrmml Ctrmml.Mds Ctrmml.Seq Ctrmml.Codec Tables
+
+/-- **The terminator is the last instruction** — for EVERY event list (no restriction): if the
+list ends with `FINISH`, `JUMP` or `DMFINISH`, the emitted stream ends with that opcode followed by
+exactly its operand bytes (0, 2, 1). -/
+theorem C03_stream_ends_with_terminator (nS nM : Nat) (es : List MEv) (term arg : Nat) (bytes : List Nat)
+    (ht : term = mds_FINISH ∨ term = mds_JUMP ∨ term = mds_DMFINISH)
+    (h : convertTrack nS nM (es ++ [⟨term, arg⟩]) = .ok bytes) :
+    ∃ pre ops, bytes = pre ++ term :: ops ∧
+      ops.length = (if term = mds_FINISH then 0 else if term = mds_JUMP then 2 else 1) := by
+  unfold convertTrack at h
+  rw [encAll_append] at h
+  cases he : encAll nS nM {} es with
+  | error x => rw [he] at h; simp [Except.map] at h
+  | ok e1 =>
+    rw [he] at h
+    rcases ht with rfl | rfl | rfl
+    · simp only [encAll, encEv_finish, Except.map, Except.ok.injEq] at h
+      exact ⟨e1.out, [], h.symm, rfl⟩
+    · simp only [encAll, encEv_jump, Except.map, Except.ok.injEq] at h
+      exact ⟨e1.out, [jumpOff e1 / 256, jumpOff e1 % 256], h.symm, rfl⟩
+    · have hb : encOther nS nM e1 mds_DMFINISH arg = .ok { e1 with out := e1.out ++ [mds_DMFINISH, arg % 256] } :=
+        encOther_byte nS nM e1 arg (by decide)
+      simp only [encAll, encEv_other (by decide) hb, Except.map, Except.ok.injEq] at h
+      exact ⟨e1.out, [arg % 256], h.symm, rfl⟩
+
+/-- **Never reads outside, never meets an unknown opcode, a missing length or an empty loop stack** —
+restriction: tracks whose bracket structure has no loop break (`noBreakL`), leaves in the linear
+fragment, terminated by `FINISH`.  For every fuel, tick limit, number of followed jumps and initial
+register contents the interpreter stops only with `finished`, `fuel` or `tooManyTicks`. -/
+theorem C03_codec_never_reads_outside_partial (nS nM : Nat) (ts : List Node) (hl : linL ts = true)
+    (hn : noBreakL ts = true) (farg : Nat) :
+    ∃ bytes, convertTrack nS nM (flatL ts ++ [⟨mds_FINISH, farg⟩]) = .ok bytes ∧
+      ∀ (base mj maxTicks fuel : Nat) (ln lr : Option Nat),
+        (run bytes base mj maxTicks fuel { pc := 0, lastNote := ln, lastRest := lr }).2 ∈
+          [Stop.finished, Stop.fuel, Stop.tooManyTicks] := by
+  obtain ⟨bytes, h1, h2⟩ := codec_roundtrip_loops_nobreak nS nM ts hl hn farg
+  exact ⟨bytes, h1, fun base mj maxTicks fuel ln lr => (h2 base mj ln lr).safe maxTicks fuel⟩
+
+/-- the same for a looping track `a ++ [SEGNO] ++ b ++ [JUMP]` (`a`, `b` linear, stream < 64 KiB),
+however often the jump is followed -/
+theorem C03_codec_never_reads_outside_segno_partial (nS nM : Nat) (a b : List MEv)
+    (ha : ∀ ev ∈ a, linEv ev = true) (hb : ∀ ev ∈ b, linEv ev = true) (jarg : Nat) :
+    ∃ bytes, convertTrack nS nM (a ++ [⟨mds_SEGNO, 0⟩] ++ b ++ [⟨mds_JUMP, jarg⟩]) = .ok bytes ∧
+      (bytes.length < 65536 → ∀ (base mj maxTicks fuel : Nat) (ln lr : Option Nat),
+        (run bytes base mj maxTicks fuel { pc := 0, lastNote := ln, lastRest := lr }).2 ∈
+          [Stop.finished, Stop.fuel, Stop.tooManyTicks]) := by
+  obtain ⟨bytes, h1, h2⟩ := codec_roundtrip_segno nS nM a b ha hb jarg
+  exact ⟨bytes, h1, fun hlen base mj maxTicks fuel ln lr => (h2 hlen base mj ln lr).safe maxTicks fuel⟩
+
+example : ∃ bytes, convertTrack 0 0 ([⟨0xa6, 24⟩] ++ [⟨mds_JUMP, 0⟩]) = .ok bytes := ⟨_, rfl⟩
+example : linL [.loop [.ev ⟨0xa6, 24⟩] 2] = true ∧ noBreakL [.loop [.ev ⟨0xa6, 24⟩] 2] = true := by decide
 
 end Ctrmml.C03
